@@ -1505,14 +1505,13 @@ impl QueryPlan {
                                 Type::bit_vec(),
                             )
                         } else {
-                            (
-                                planner.constant_expand(
-                                    (plan.is_null() as u8) as i64,
-                                    column_len,
-                                    EncodingType::U8,
-                                ),
-                                Type::bit_vec(),
-                            )
+                            // The operand is already filtered; the expanded constant must have the same length.
+                            let expanded = planner.constant_expand(
+                                (plan.is_null() as u8) as i64,
+                                column_len,
+                                EncodingType::U8,
+                            );
+                            (filter.apply_filter(planner, expanded), Type::bit_vec())
                         }
                     }
                     Func1Type::IsNotNull => {
@@ -1522,14 +1521,12 @@ impl QueryPlan {
                                 Type::bit_vec(),
                             )
                         } else {
-                            (
-                                planner.constant_expand(
-                                    (!plan.is_null() as u8) as i64,
-                                    column_len,
-                                    EncodingType::U8,
-                                ),
-                                Type::bit_vec(),
-                            )
+                            let expanded = planner.constant_expand(
+                                (!plan.is_null() as u8) as i64,
+                                column_len,
+                                EncodingType::U8,
+                            );
+                            (filter.apply_filter(planner, expanded), Type::bit_vec())
                         }
                     }
                     Func1Type::Negate => {
